@@ -15,11 +15,15 @@ cp $SRC/patch.diff $SRC/demo.py $OUT/ 2>/dev/null
 git -C /repo worktree remove --force $WT 2>/dev/null
 git -C /repo worktree add -q --detach $WT HEAD || exit 2
 HEAD=$(git -C /repo rev-parse --short HEAD)
-if ! git -C $WT apply $OUT/patch.diff 2>/dev/null; then
-  if ! git -C $WT apply --3way $OUT/patch.diff 2>$OUT/apply.log; then
+# --3way first: it merges against the blob the patch was made from, so a hunk cannot land
+# on a look-alike context elsewhere in a file that has changed since
+if ! git -C $WT apply --3way $OUT/patch.diff 2>$OUT/apply.log; then
+  git -C $WT checkout -q -- .
+  if ! git -C $WT apply $OUT/patch.diff 2>>$OUT/apply.log; then
     echo "PATCH DOES NOT APPLY on $HEAD"; git -C /repo worktree remove --force $WT; exit 3
   fi
 fi
+git -C $WT reset -q
 export PYTHONHASHSEED=0
 demo_with=$(cd $WT && PYTHONPATH=$WT/src /venv/bin/python $OUT/demo.py >/dev/null 2>&1; echo $?)
 demo_without=$(cd /tmp && /venv/bin/python $OUT/demo.py >/dev/null 2>&1; echo $?)
